@@ -10,7 +10,7 @@ PROPS = {
     "C08": [("u_capt", "quick"), ("u_closenv", "quick"), ("u_liftty", "quick"), ("u_envname", "quick"), ("u_closty", "quick")],
     "C03": [("u_msubst", "quick"), ("u_munify", "quick"), ("u_tmono", "quick"), ("u_patlit", "quick"), ("u_numarms", "quick"), ("u_annot", "quick"), ("u_inst", "quick"), ("u_capt", "quick"), ("u_arrset", "quick"), ("u_fieldinst", "quick"), ("u_optypes", "quick"), ("u_mcall", "quick")],
     "C05": [("u_scope", "quick")],
-    "C06": [("u_rows", "quick"), ("u_switch", "quick"), ("u_matchentry", "quick"), ("u_structpat", "quick")],
+    "C06": [("u_rows", "quick"), ("u_switch", "quick"), ("u_matchentry", "quick"), ("u_structpat", "quick"), ("u_rowdispatch", "quick")],
     "C19": [("u_goident", "quick"), ("u_reserved", "quick"), ("u_gensym", "quick"), ("u_varname", "quick"), ("u_genphase", "quick"), ("u_entryname", "quick")],
     "C17": [("u_dynvis", "quick"), ("u_ceffect", "quick"), ("u_block", "quick"), ("u_inherent", "quick"), ("u_dynpayload", "quick"), ("u_dynimpl", "quick"), ("u_dynorigin", "quick"), ("u_dyngate", "quick"), ("u_traitname", "quick")],
     "C16": [("u_pkgallow", "quick"), ("u_orphan", "quick"), ("u_topo", "quick"), ("u_depenv", "quick"), ("u_cohere", "quick"), ("u_loadpkg", "quick"), ("u_scope", "quick"), ("u_deprec", "quick"), ("u_link", "quick"), ("u_tygate", "quick"), ("u_lowertype", "quick")],
